@@ -307,19 +307,19 @@ def _job(args):
                     return []
             except (TypeError, ValueError):
                 return []
-    elif name.endswith(("@pp", "@kw", "@oc")):
+    elif name.endswith(("@pp", "@kw", "@oc", "@o0")):
         # calling styles: everything positional in the pinned parameter order / everything by keyword / numeric options
         # held as numpy scalars and 0-d arrays - the values are the same, so is the contract
         from .qlib import as_pinned_positional, as_all_keyword, numpy_carriers
         jn, fn, a, kw = build(name[:-3], n, rng)
         how_ = name[-2:]
-        if how_ == "oc":
+        if how_ in ("oc", "o0"):
             obj0 = a[0] if a and not isinstance(a[0], np.ndarray) and hasattr(a[0], "__dict__") else None
             if obj0 is not None:                         # solver object: its numeric options are attributes
                 for k_, v_ in list(vars(obj0).items()):
                     if isinstance(v_, (bool, int, float)) and not k_.startswith("_"):
-                        setattr(obj0, k_, numpy_carriers((v_,), {})[0][0])
-            a2, kw = numpy_carriers(a[1:] if obj0 is not None else a, kw)
+                        setattr(obj0, k_, numpy_carriers((v_,), {}, zero_d=how_ == "o0")[0][0])
+            a2, kw = numpy_carriers(a[1:] if obj0 is not None else a, kw, zero_d=how_ == "o0")
             a = ((obj0,) + a2) if obj0 is not None else a2
         else:
             r_ = (as_pinned_positional if how_ == "pp" else as_all_keyword)(fn, a, kw)
@@ -356,7 +356,7 @@ def _job(args):
     np.random.seed(seed % (2 ** 31))
     a_call, kw_call = styled if styled is not None else (a, kw)          # the judge sees the call as the builder wrote it
     with contextlib.redirect_stdout(io.StringIO()):
-        if name.endswith("@oc"):
+        if name.endswith(("@oc", "@o0")):
             # the caller keeps its option objects (a 0-d array holding a tolerance or a budget) and passes them again:
             # the judged call is the SECOND one with the same objects
             # (array arguments are copied for the first call - some kernels overwrite them by design -, option objects are not)
@@ -455,7 +455,7 @@ def stage(ctx, quick=False):
                 continue
             jobs.append((nm + "@vb", n, ctx.seed * 1013 + 41 * n + len(jobs)))
             jobs.append((nm + "@df", n, ctx.seed * 1013 + 43 * n + len(jobs)))
-            for st_ in ("@pp", "@kw", "@oc"):
+            for st_ in ("@pp", "@kw", "@oc", "@o0"):
                 jobs.append((nm + st_, n, ctx.seed * 1013 + 47 * n + len(jobs)))
     outs = par.pmap(_job, jobs, chunk=1)
     rec = S.Rec()
